@@ -83,6 +83,10 @@ func c06ex(g *hgen, stacks []int, conds []int) Val {
 		return vRef(conds[r.Intn(len(conds))], r.PickInt(dNative, dAliasStr, dAlias))
 	case 7:
 		return Val{K: "strer", S: "se" + itoa(r.Intn(9))}
+	case 8:
+		if r.Bool(0.5) {
+			return Val{K: "pstr", S: []string{"p1", "p2", ""}[r.Intn(3)]}
+		}
 	}
 	g.uniq++
 	if r.Bool(0.15) {
